@@ -354,3 +354,55 @@ func Drain(f *Flow, r *rand.Rand, maxPayload int, write func(*rtp.Packet) error,
 	}
 	return stuck
 }
+
+// DrainProgress is Drain without a wall-clock verdict. Sentinels are written in rounds of
+// perRound; a reader that has not seen one at the end of a round is given another round as long
+// as ANY delivery reached it during the round (it is working through a backlog - the first hop
+// of a relay, kernel buffers of a slow consumer), up to maxRounds. It returns the readers that
+// made no progress at all during a whole round (stuck: nothing flows towards them any more) and
+// whether pending readers were still progressing when maxRounds ran out (slow: undecided).
+func DrainProgress(f *Flow, r *rand.Rand, maxPayload int, write func(*rtp.Packet) error, rds []*Reader,
+	perRound int, gap time.Duration, maxRounds int,
+) (stuck []*Reader, slow []*Reader, rounds int) {
+	firstSentinel := -1
+	pending := func() []*Reader {
+		var out []*Reader
+		for _, rd := range rds {
+			if v, ok := rd.LastSeen(f.Media, f.PT); !ok || firstSentinel < 0 || int(v) < firstSentinel {
+				out = append(out, rd)
+			}
+		}
+		return out
+	}
+	for rounds = 1; rounds <= maxRounds; rounds++ {
+		before := map[*Reader]int{}
+		for _, rd := range rds {
+			before[rd] = rd.Delivered()
+		}
+		for i := 0; i < perRound; i++ {
+			pkt, idx := f.Next(r, maxPayload, true)
+			if firstSentinel < 0 {
+				firstSentinel = idx
+			}
+			err := write(pkt)
+			f.Done(idx, err)
+			time.Sleep(gap)
+			if len(pending()) == 0 {
+				return nil, nil, rounds
+			}
+		}
+		pend := pending()
+		var moving, still []*Reader
+		for _, rd := range pend {
+			if rd.Delivered() > before[rd] {
+				moving = append(moving, rd)
+			} else {
+				still = append(still, rd)
+			}
+		}
+		if len(moving) == 0 {
+			return still, nil, rounds
+		}
+	}
+	return nil, pending(), maxRounds
+}
